@@ -134,7 +134,7 @@ Section Clauses.
     has (hd_mode f) OpenWrite = true -> b <> [] ->
     let pos := if has (hd_mode f) OpenAppend then zlen d else hd_at f in
     f_write s v f b =
-      (with_heap s (upd (f_heap s) c (NFile (put_bytes d (Z.to_nat pos) b) k i m)),
+      (with_heap s (upd (f_heap s) c (NFile (put_bytes d (Z.to_nat pos) b) k i (drop_privs (v_user v) m))),
        set_at f (pos + zlen b), RInt (zlen b)).
   Proof.
     intros Hw Hb pos. unfold f_write.
@@ -154,7 +154,7 @@ Section Clauses.
   Lemma f_write_at_ok b off :
     has (hd_mode f) OpenWrite = true -> has (hd_mode f) OpenAppend = false -> 0 <= off -> b <> [] ->
     f_write_at s v f b off =
-      (with_heap s (upd (f_heap s) c (NFile (put_bytes d (Z.to_nat off) b) k i m)), RInt (zlen b)).
+      (with_heap s (upd (f_heap s) c (NFile (put_bytes d (Z.to_nat off) b) k i (drop_privs (v_user v) m))), RInt (zlen b)).
   Proof.
     intros Hw Hap Hoff Hb. unfold f_write_at. rewrite Hap.
     destruct (Z.ltb_spec off 0); [lia|]. destruct b as [|b0 b']; [congruence|].
@@ -167,7 +167,7 @@ Section Clauses.
   Lemma gap_write b :
     has (hd_mode f) OpenWrite = true -> has (hd_mode f) OpenAppend = false -> zlen d <= hd_at f -> b <> [] ->
     f_write s v f b =
-      (with_heap s (upd (f_heap s) c (NFile (d ++ zeros (Z.to_nat (hd_at f) - length d) ++ b) k i m)),
+      (with_heap s (upd (f_heap s) c (NFile (d ++ zeros (Z.to_nat (hd_at f) - length d) ++ b) k i (drop_privs (v_user v) m))),
        set_at f (hd_at f + zlen b), RInt (zlen b)).
   Proof.
     intros Hw Ha Hoff Hb. rewrite f_write_ok by assumption. rewrite Ha.
@@ -177,7 +177,7 @@ Section Clauses.
   Lemma gap_write_at b off :
     has (hd_mode f) OpenWrite = true -> has (hd_mode f) OpenAppend = false -> zlen d <= off -> b <> [] ->
     f_write_at s v f b off =
-      (with_heap s (upd (f_heap s) c (NFile (d ++ zeros (Z.to_nat off - length d) ++ b) k i m)), RInt (zlen b)).
+      (with_heap s (upd (f_heap s) c (NFile (d ++ zeros (Z.to_nat off - length d) ++ b) k i (drop_privs (v_user v) m))), RInt (zlen b)).
   Proof.
     intros Hw Hap Hoff Hb. unfold zlen in Hoff. rewrite f_write_at_ok by (auto; lia).
     rewrite put_bytes_beyond by lia. reflexivity.
@@ -187,7 +187,7 @@ Section Clauses.
   Lemma append_write b :
     has (hd_mode f) OpenWrite = true -> has (hd_mode f) OpenAppend = true -> b <> [] ->
     f_write s v f b =
-      (with_heap s (upd (f_heap s) c (NFile (d ++ b) k i m)), set_at f (zlen d + zlen b), RInt (zlen b)).
+      (with_heap s (upd (f_heap s) c (NFile (d ++ b) k i (drop_privs (v_user v) m))), set_at f (zlen d + zlen b), RInt (zlen b)).
   Proof.
     intros Hw Ha Hb. rewrite f_write_ok by assumption. rewrite Ha.
     unfold zlen. rewrite Nat2Z.id, put_bytes_at_end. reflexivity.
@@ -610,6 +610,18 @@ Proof.
   apply N.eqb_eq in H1, H2, H3. auto.
 Qed.
 
+(* permission bits carry no set-id bit: chown (which clears them) leaves such a mode alone *)
+Definition setid_free (p : N) : bool := N.eqb (N.ldiff p MODE_SETUID) p && N.eqb (N.ldiff p MODE_SETGID) p.
+
+Lemma drop_setid_small (u : user) (m : meta) : (m_mode m < 512)%N -> drop_setid u m = m.
+Proof.
+  intros Hlt.
+  assert (H : setid_free (m_mode m) = true).
+  { apply (N_lt_forall setid_free 512); [vm_compute; reflexivity|exact Hlt]. }
+  unfold setid_free in H. apply andb_true_iff in H. destruct H as [H1 H2]. apply N.eqb_eq in H1, H2.
+  unfold drop_setid. rewrite H1, H2. destruct m, (has _ 8 || _); reflexivity.
+Qed.
+
 (* ---- the path walk does not look at the content of files ---------------------------- *)
 Definition node_sim (a b : option node) : Prop :=
   match a, b with
@@ -889,6 +901,10 @@ Proof. intros H1 H2 H3. unfold on_fd. now rewrite H1, H2, H3. Qed.
 Lemma on_fd_none st fd k : nth_error (st_fds st) fd = None -> on_fd st fd k = (st, S_BadIndex).
 Proof. intros H. unfold on_fd. now rewrite H. Qed.
 
+(* the administrator's writes and truncations leave the set-id bits alone *)
+Lemma drop_privs_good v m : good_view v -> drop_privs (v_user v) m = m.
+Proof. intros [Ha _]. unfold drop_privs. rewrite Ha. reflexivity. Qed.
+
 Lemma good_view_win v : good_view v -> win v = false.
 Proof. intros [_ H]. unfold win. now rewrite H. Qed.
 
@@ -1046,7 +1062,7 @@ Section StepRefine.
       + destruct b as [|b0 b'].
         * erewrite f_write_nil by eassumption. rewrite Hw. cbn. split; auto.
           unfold Rel. cbn [with_handle with_fs w_fs w_views w_handles]. now apply Rel_same_fd.
-        * erewrite f_write_ok by (try eassumption; discriminate).
+        * erewrite f_write_ok by (try eassumption; discriminate). rewrite (drop_privs_good _ Hg).
           rewrite Ha, Hat. cbn [fst snd fproj_res].
           set (pos := if o_app o then zlen (i_bytes ino) else o_off o).
           split; [reflexivity|].
@@ -1088,7 +1104,7 @@ Section StepRefine.
       erewrite on_fd_closed by eassumption. cbn. split; auto; same_world.
     - erewrite on_fd_open by eassumption.
       destruct (can_write (o_acc o)) eqn:Ecw.
-      + erewrite f_write_at_ok by (try eassumption; discriminate). cbn [negb fst snd fproj_res].
+      + erewrite f_write_at_ok by (try eassumption; discriminate). rewrite (drop_privs_good _ Hg). cbn [negb fst snd fproj_res].
         split; [reflexivity|].
         unfold Rel. cbn [with_fs w_fs w_views w_handles].
         apply Rel_upd_inode with (ino := ino)
@@ -1141,7 +1157,7 @@ Section StepRefine.
       destruct (Z.ltb_spec size 0) as [Hs|Hs]; cbn [orb].
       + cbn. split; auto; same_world.
       + destruct (can_write (o_acc o)); cbn [negb].
-        * cbn [fst snd fproj_res]. split; [reflexivity|].
+        * rewrite (drop_privs_good _ Hg). cbn [fst snd fproj_res]. split; [reflexivity|].
           rewrite truncate_data_resize by lia.
           unfold Rel. cbn [with_fs w_fs w_views w_handles].
           apply Rel_upd_inode with (ino := ino) (ino' := set_bytes ino (resize (i_bytes ino) (Z.to_nat size))); assumption.
@@ -1198,6 +1214,7 @@ Section StepRefine.
     - erewrite on_fd_open by eassumption.
       unfold f_chown. destruct (hd_name f) eqn:Enm; [congruence|]. rewrite Hnode, Hget. rewrite (good_view_win Hg).
       destruct Hg as [Hadm Hos]. unfold check_permission. rewrite Hadm.
+      unfold chown_meta. cbn [node_meta]. rewrite (drop_setid_small (v_user v) (meta_of ino)) by exact Hperm.
       cbn [fst snd fproj_res set_meta node_meta]. split; [reflexivity|].
       unfold Rel. cbn [with_fs w_fs w_views w_handles].
       apply Rel_upd_inode with (ino := ino)
@@ -1263,7 +1280,7 @@ Section StepRefine.
     - cbn. split; auto; same_world.
     - destruct (Hres SlEval) as (He & Hc & _). rewrite He, Hc. cbn [is_file_exists negb]. rewrite Hget, Eino.
       destruct (Z.ltb_spec size 0); [lia|].
-      destruct Hg as [Hadm Hos]. unfold check_permission. rewrite Hadm. cbn [negb].
+      destruct Hg as [Hadm Hos]. unfold check_permission, drop_privs. rewrite Hadm. cbn [negb].
       cbn [fst snd fproj_res]. split; [reflexivity|]. rewrite truncate_data_resize by lia.
       unfold Rel. cbn [with_fs w_fs w_views w_handles].
       apply Rel_upd_inode with (ino := ino) (ino' := set_bytes ino (resize (i_bytes ino) (Z.to_nat size))); assumption.
@@ -1298,7 +1315,7 @@ Section StepRefine.
     destruct (Hres (if has (to_open_mode flag) OpenCreateExcl then SlLstat else SlEval)) as (He & Hc & Hlast).
     rewrite He, Hc, Hlast. cbn [is_file_exists is_not_exist negb andb orb]. rewrite Hget.
     rewrite andb_false_r. cbn [is_not_exist].
-    destruct Hg as [Hadm Hos]. unfold check_permission. rewrite Hadm. cbn [negb].
+    destruct Hg as [Hadm Hos]. unfold check_permission, drop_privs. rewrite Hadm. cbn [negb].
     rewrite Bx, Bt.
     (* the specification *)
     cbn [fspec_step]. rewrite Eacc, El.
